@@ -1,8 +1,13 @@
 #!/bin/bash
 # usage: ./runall.sh [tier] [seed]  -> runs every claimed check sequentially, prints one line each
 tier=${1:-quick}; export VERIF_SEED=${2:-1}
+worst=0
 for p in $(python3 -c "import json;print(' '.join(c['property_id'] for c in json.load(open('/verif/MANIFEST.json'))['checks']))"); do
   s=$(date +%s); out=$(./check $p $tier 2>&1); rc=$?; e=$(date +%s)
   echo "$p rc=$rc $((e-s))s $(echo "$out" | grep -E '^(VIOLATION|KNOWN-FINDING|OK)' | head -2 | cut -c1-120 | tr '\n' ' ')"
-  [ $rc -ne 0 ] && echo "$out" | grep -E "INFRA|what:" | head -5 | cut -c1-300
+  if [ $rc -ne 0 ]; then
+    echo "$out" | grep -E "INFRA|what:" | head -5 | cut -c1-300
+    [ $rc -gt $worst ] && worst=$rc
+  fi
 done
+exit $worst
